@@ -180,7 +180,7 @@ def run(ctx):
     traces = framework.pool_map(random_trace, jobs)
     ctx.validate("httpm", "Trace_HeaderMap", "Trace_HeaderMap.cfg", traces, timeout=ctx.pick(900, 3000), sig_fn=_c2s_sig)
     ctx.cov["rule"] = ("paths: every sequence of add/set/del/get/get_list/in/iter/items/pop/copy/copy-ops/parse_line/round-trip "
-                       "up to length %d over names {a, A, b} with serial values, every sequence of the cache-affecting "
+                       "up to length %d over names {a, A, x-Y} with serial values, every sequence of the cache-affecting "
                        "operations up to length %d over {a, A}, seeded TLC simulation walks (depth 30, 6 names, all line "
                        "spellings) and random recorded runs of length 40; distinct = distinct operation sequence; "
                        "non-trivial = length >= 2" % (La, Lb))
@@ -194,12 +194,9 @@ def replay(ctx, rec):
         return 1 if r else 0
     if "trace" in d:
         t = d["trace"]
-        real = HdrReal()
-        for i, e in enumerate(t["ev"]):
-            obs = real.step(e["a"], e["args"])
-            if canon(obs) != canon(e["obs"]):
-                print("replay: the real object no longer reproduces event %d (%s): %s" % (i + 1, e["a"], framework.jdump(obs)))
-                return 0
+        real = HdrReal()                                      # re-execute the recorded inputs
+        t = {"id": t["id"], "cfg": t["cfg"], "ev": [{"a": e["a"], "args": e["args"], "obs": real.step(e["a"], e["args"]),
+                                                     "pre_in": e.get("pre_in", -1)} for e in t["ev"]]}
         v = ctx.validate("httpm", "Trace_HeaderMap", "Trace_HeaderMap.cfg", [t], sig_fn=_c2s_sig)
         bad = v[t["id"]]
         print("replay:", "rejected at event %d: %s" % (bad["at"], framework.jdump(bad["event"])) if bad else "accepted by the specification")
